@@ -13,6 +13,7 @@ import (
 	"strconv"
 	"strings"
 	"sync"
+	"sync/atomic"
 	"time"
 
 	collogpb "go.opentelemetry.io/proto/otlp/collector/logs/v1"
@@ -72,6 +73,11 @@ type collector struct {
 	log []*entry
 
 	done chan struct{} // closed on teardown: releases every held handler
+
+	// warm: a warm-up export (made before the case's export through the same
+	// exporter) is in progress: answer with success, do not consume the script.
+	warm     atomic.Bool
+	warmSeen atomic.Int32
 
 	wantHeaders map[string]string // configured with WithHeaders on the case's exporter
 	interf      []entry           // requests of the interfering exporter (role header), always answered with success
@@ -149,6 +155,9 @@ func (e proxyErr) Timeout() bool   { return false }
 // a proxy_* step the attempt is logged here and fails with the scripted error,
 // otherwise (nil, nil) = "no proxy" and the request goes to the collector.
 func (c *collector) proxy(*http.Request) (*url.URL, error) {
+	if c.warm.Load() {
+		return nil, nil
+	}
 	t := c.now()
 	c.mu.Lock()
 	i := len(c.log)
@@ -244,6 +253,13 @@ func readHTTPBody(r *http.Request) ([]byte, error) {
 func (c *collector) ServeHTTP(w http.ResponseWriter, r *http.Request) {
 	if r.Header.Get(roleHeader) != "" {
 		c.interferer(readHTTPBody(r))
+		w.Header().Set("Content-Type", "application/x-protobuf")
+		w.WriteHeader(200)
+		return
+	}
+	if c.warm.Load() {
+		_, _ = readHTTPBody(r)
+		c.warmSeen.Add(1)
 		w.Header().Set("Content-Type", "application/x-protobuf")
 		w.WriteHeader(200)
 		return
@@ -374,6 +390,10 @@ func (c *collector) serveGRPC(ctx context.Context, req proto.Message, okResp fun
 	}
 	if header(roleHeader) != "" {
 		c.interferer(detMarshal.Marshal(req))
+		return okResp(), nil
+	}
+	if c.warm.Load() {
+		c.warmSeen.Add(1)
 		return okResp(), nil
 	}
 	e, st, known := c.arrive(header)
